@@ -20,7 +20,7 @@ ASSUMPTIONS = [
 
 
 def shards(tier, seed):
-    n = 1 if tier == 'quick' else 16
+    n = 8 if tier == 'quick' else 16
     return [dict(i=i, n=n) for i in range(n)]
 
 
@@ -187,8 +187,8 @@ def chain_case(sink, seed, idx):
 
 
 def run_shard(sink, tier, seed, shard):
-    n = harness.scale(6000, 600000, tier)
-    nc = harness.scale(1000, 100000, tier)
+    n = harness.scale(40000, 600000, tier)
+    nc = harness.scale(6000, 100000, tier)
     i0, step = (shard or {}).get('i', 0), (shard or {}).get('n', 1)
     for idx in range(i0, n, step):
         sink.guard('harness', 'pair', dict(index=idx), lambda: check_pair(sink, seed, idx))
